@@ -93,6 +93,7 @@ type pending struct {
 type frame struct {
 	depth   int
 	logged  bool
+	static  bool // the frame or one of its ancestors was entered with the static argument
 	p       *pending
 	steps   int
 	lastGas uint64 // gas when the previous step of this frame ended (entry gas before the first)
@@ -138,6 +139,16 @@ func (r *Recorder) BeginRun(id int) {
 	r.LastStack, r.LastMem = [][]int{}, nil
 }
 
+// InStatic tells whether the innermost open frame is in static context by the
+// recorder's own bookkeeping (static argument of the frame or of an ancestor),
+// independently of the interpreter's readOnly flag.
+func (r *Recorder) InStatic() bool {
+	if fr := r.top(); fr != nil {
+		return fr.static
+	}
+	return false
+}
+
 // Depth is the current interpreter depth (0 outside any frame).
 func (r *Recorder) Depth() int { return len(r.frames) }
 
@@ -149,7 +160,7 @@ func (r *Recorder) top() *frame {
 }
 
 func (r *Recorder) FrameEnter(f *vm.VerifFrame) {
-	r.frames = append(r.frames, &frame{depth: f.Depth, lastGas: f.Gas})
+	r.frames = append(r.frames, &frame{depth: f.Depth, lastGas: f.Gas, static: f.StaticArg || r.InStatic()})
 	if f.Depth > r.MaxDepth {
 		r.MaxDepth = f.Depth
 	}
@@ -160,7 +171,7 @@ func (r *Recorder) FrameEnter(f *vm.VerifFrame) {
 		r.FramesLogged++
 		r.top().logged = true
 		ev := map[string]interface{}{"event": "Enter", "run": r.Run, "depth": f.Depth, "static": f.StaticArg,
-			"ro": f.ReadOnly, "gas": GasDigits(f.Gas), "codeLen": len(f.Code), "nframes": len(r.frames),
+			"ro": r.top().static, "iro": f.ReadOnly, "gas": GasDigits(f.Gas), "codeLen": len(f.Code), "nframes": len(r.frames),
 			"value0": f.Value == nil || f.Value.Sign() == 0, "pop": -1, "pg1": []int{}}
 		if len(r.frames) >= 2 {
 			if pp := r.frames[len(r.frames)-2].p; pp != nil && pp.charged {
@@ -183,7 +194,7 @@ func (r *Recorder) FrameExit(f *vm.VerifFrame, ret []byte, logs []*types.Log, er
 	}
 	if r.Opt.Frames && fr != nil && fr.logged {
 		ev := map[string]interface{}{"event": "Exit", "run": r.Run, "depth": f.Depth, "static": f.StaticArg,
-			"ro": f.ReadOnly, "gas": GasDigits(f.Gas), "err": ErrClass(err), "retLen": len(ret), "nlogs": len(logs),
+			"ro": fr.static, "iro": f.ReadOnly, "gas": GasDigits(f.Gas), "err": ErrClass(err), "retLen": len(ret), "nlogs": len(logs),
 			"nframes": len(r.frames), "steps": 0}
 		if fr != nil {
 			ev["steps"] = fr.steps
